@@ -127,13 +127,28 @@ def affinity_eval(case):
               tau=case["tau"], delta=case["delta"], delta_factor=case["delta_factor"])
     out = {}
 
+    class _Timeout(Exception):
+        pass
+
     def guard(name, fn):
+        # the searches loop in Python code: a search that never ends is interrupted after 20 s and reported
+        import signal
+
+        def on_alarm(signum, frame):
+            raise _Timeout()
+        old = signal.signal(signal.SIGALRM, on_alarm)
+        signal.setitimer(signal.ITIMER_REAL, 20.0)
         try:
             out[name] = fn()
+        except _Timeout:
+            out[name] = {"error": "Timeout: the routine did not return within 20 s (endless search)"}
         except BaseException as ex:
             if isinstance(ex, (KeyboardInterrupt, SystemExit)):
                 raise
             out[name] = {"error": type(ex).__name__ + ":" + str(ex)[:120]}
+        finally:
+            signal.setitimer(signal.ITIMER_REAL, 0)
+            signal.signal(signal.SIGALRM, old)
 
     guard("py", lambda: _hex_matrix(dtw.warping_paths_affinity(s1, s2, **kw)[1]))
     guard("py_use_c", lambda: _hex_matrix(dtw.warping_paths_affinity(s1, s2, use_c=True, **kw)[1]))
@@ -168,11 +183,19 @@ def affinity_eval(case):
         res = {"start": _hex_matrix(start), "calls": []}
         if engine != "c_compact":
             res["masked"] = masked
+        # every match uses at least one cell no earlier match of the same search used: more matches than cells means
+        # that the search finds a match again and again (it would never end for k=None)
+        cap = (len(case["s1"]) + 1) * (len(case["s2"] if case.get("s2") is not None else case["s1"]) + 1) + 2
         for call in case["calls"]:
             ms = []
             for m in lc.kbest_matches(k=call["k"], minlen=call["minlen"], restart=call["restart"]):
                 ms.append({"row": int(m.row), "col": int(m.col), "path": [[int(a), int(b)] for a, b in m.path]})
+                if len(ms) > cap:
+                    res["runaway"] = True
+                    break
             res["calls"].append(ms)
+            if res.get("runaway"):
+                break
         return res
     for engine in ("py", "c_full", "c_compact"):
         guard("lc_" + engine, lambda e=engine: matches(e))
